@@ -12,6 +12,14 @@ COMMON_NOTE = ("Trusted: Lean 4.33 kernel; axioms ⊆ {propext, Classical.choice
 
 # id -> (technique, level text, level note extra, design_ref)
 CHECKS = {
+    "C05": ("Lean 4 proof of the header byte codec (parse∘encode = id, encode∘parse = bytes, edit touches only its key) "
+            "over tables regenerated from source + byte-exact differential correspondence + independent parser oracle",
+            "Theorems parse_encode / encode_parse for any list of well-typed entries and any trailing data; edit_exact / "
+            "edit_ok_shape / edit_invalid_key for in-place edits; frame_roundtrip; telescope/machine id round trips by "
+            "decide +kernel over the generated tables; radec_roundtrip over ℚ including -1°<dec<0.",
+            "Doubles are opaque 8-byte patterns; astropy's sexagesimal formatting/parsing and the float64 DDMMSS.S "
+            "representation are validated to 0.01 arcsec by the correspondence run, not proved; strings are ASCII.",
+            "§5 C05"),
     "C02": ("Lean 4 refinement proof (concrete multi-file reader state → flat byte-array spec), induction over operation "
             "histories + differential correspondence on real file sets + byte-array oracle",
             "Theorems step_refines / history_refines: for every file list (incl. empty data sections), every state "
